@@ -94,6 +94,14 @@ def gen(tier, rng):
                 m = m[:start] + pat + b"tail\r\n"
                 for k in "sa":
                     cases.append(f"wire\t{k}\t{hexs(m)}")
+    # through the transports (SmtpTransport / AsyncSmtpTransport::send_raw over a pool of one), not only through a connection: the
+    # octets given to send_raw are the octets the server reconstructs - bare LF, bare CR and look-alikes included (round 7: C03/m19
+    # "normalised" line endings in the blocking transport's send_raw)
+    from tools.props import c20
+    h = c20.happy(1)
+    for m in (b"\n.\nx", b"a\nb", b"a\rb\n", b"\n", b"x\r\n.\r\ny\n.\n", b"line\r\n\n.\r\n", b"\r", b"caf\xc3\xa9\n", b"\n\n\n", b"plain\r\n"):
+        for k in "sa":
+            cases.append(c20.pool_case(k, 300, 1, False, 1, "a@b.c", ["x@y.z"], m, [h, h]))
     return cases
 
 
@@ -107,6 +115,8 @@ def message_of(case):
         return unhex(f[2]) + unhex(f[3])
     if f[0] == "bigwire":
         return b"\r"
+    if f[0] == "pool":
+        return unhex(f[8])
     return unhex(f[2]) if f[0] == "estep" else b""
 
 
@@ -116,7 +126,7 @@ def nontrivial(case):
 
 
 def shrinkable(case):
-    if case.startswith("bigwire"):
+    if case.startswith("bigwire") or case.startswith("pool"):
         return []
     if case.startswith("wire2"):
         return [2, 3]
@@ -133,6 +143,9 @@ def distribution(cases):
             d["two_messages_one_connection"] = d.get("two_messages_one_connection", 0) + 1
         elif f[0] == "bigwire":
             d["megabytes_to_a_late_reader"] = d.get("megabytes_to_a_late_reader", 0) + 1
+            continue
+        elif f[0] == "pool":
+            d["through_the_transports"] = d.get("through_the_transports", 0) + 1
             continue
         else:
             d[f[0]] += 1
